@@ -307,9 +307,14 @@ class AsCompleted(_CHarness):
   max_steps = 60000
 
   def __init__(self, W=2, T=2, bad=None, ignore=False, menu=(),
-               driver='as_completed', timeout=60, mode='preempt', push=True):
+               driver='as_completed', timeout=60, mode='preempt', push=True,
+               pause=False):
     self.params = dict(W=W, T=T, bad=bad, ignore=ignore, menu=list(menu),
-                       driver=driver, timeout=timeout, mode=mode, push=push)
+                       driver=driver, timeout=timeout, mode=mode, push=push,
+                       pause=pause)
+    if pause:
+      self.pause_focus = ('_as_completed', 'as_completed', 'run',
+                          'call_and_wait', 'next_idle_worker', 'submit')
     self.mode = mode
     _m()
 
@@ -1025,10 +1030,14 @@ class ShardedPipelines(_CHarness):
 
   def __init__(self, W=1, S=1, total=4, batch=2, ibs=1, fuse=True, menu=(),
                retry=None, agg=True, timeout=60, mode='preempt', push=True,
-               slow=0):
+               slow=0, pause=False):
     self.params = dict(W=W, S=S, total=total, batch=batch, ibs=ibs, fuse=fuse,
                        menu=list(menu), retry=retry, agg=agg, timeout=timeout,
-                       mode=mode, push=push, slow=slow)
+                       mode=mode, push=push, slow=slow, pause=pause)
+    if pause:
+      # the orchestrating loop may be arbitrarily slow at any one of its lines
+      self.pause_focus = ('iterate', 'sharded_pipelines_as_iterator',
+                          'compute_result', 'iterate_agg_state')
     self.mode = mode
     _m()
 
@@ -1216,9 +1225,12 @@ class Interleaved(_CHarness):
   max_clock = 2500.0
 
   def __init__(self, total=4, batch=2, fuse=True, pool=False, W=1, buf=0,
-               nworkers=None, mode='preempt'):
+               nworkers=None, mode='preempt', pause=False):
     self.params = dict(total=total, batch=batch, fuse=fuse, pool=pool, W=W,
-                       buf=buf, nworkers=nworkers, mode=mode)
+                       buf=buf, nworkers=nworkers, mode=mode, pause=pause)
+    if pause:
+      self.pause_focus = ('iterate_with_worker_pool', 'iterate_in_process',
+                          'wait', 'wait_and_maybe_raise')
     self.mode = mode
     _m()
 
